@@ -21,7 +21,11 @@ def gen_history(rng, cap, n):
         k = rng.random()
         idle = [i for i in range(n) if i not in started]
         live = [i for i in started if i not in stopped]
-        if idle and (k < 0.55 or not live):
+        if idle and k < 0.15:
+            i = rng.choice(idle)
+            evs.append(["startstop", str(i)])      # session already gone when its read reaches the limiter
+            started.add(i); stopped.add(i)
+        elif idle and (k < 0.6 or not live):
             i = rng.choice(idle)
             evs.append(["start", str(i)])
             started.add(i)
@@ -34,7 +38,8 @@ def gen_history(rng, cap, n):
 
 
 def generate(rng, tier):
-    cases = [{"cap": 1, "n": 3, "events": [["start", "0"], ["start", "1"], ["stop", "1"], ["start", "2"], ["stop", "0"], ["stop", "2"]]},
+    cases = [{"cap": 1, "n": 4, "events": [["startstop", "0"], ["startstop", "1"], ["startstop", "2"], ["start", "3"]]},
+             {"cap": 1, "n": 3, "events": [["start", "0"], ["start", "1"], ["stop", "1"], ["start", "2"], ["stop", "0"], ["stop", "2"]]},
              {"cap": 2, "n": 4, "events": [["start", "0"], ["start", "1"], ["start", "2"], ["stop", "2"], ["start", "3"], ["stop", "0"]]}]
     n = 60 if tier == "quick" else 1500
     for i in range(n):
@@ -74,6 +79,7 @@ def judge(cases, obs, tier):
             if any(x not in live for x in opened):
                 oracle[i] = "after event %d a stopped session's file is still being read: open %s, live %s" % (k, opened, live)
                 break
+        # a session that is gone before it reaches the limiter leaves the live set unchanged: (false, i) on a non-live reader
         evs = vf.cq_list(["(%s, %s)" % (vf.cq_bool(e[0] == "start"), e[1]) for e in c["events"]])
         ob = vf.cq_list(["(%d, %s)" % (t["tokens"], vf.cq_list([str(x) for x in (t["open"] or [])])) for t in o["trace"]])
         terms.append("(%d, %s, %s)" % (c["cap"], evs, ob))
